@@ -327,7 +327,8 @@ def run_c17(tier, seed, wd, info, verdict, with_nonpeers=False):
     other = [r for r in rows if r["msg"]["m"] != "tick"]
     if tier == "quick":
         other = rnd.sample(other, 330)
-        tick_rows = rnd.sample(tick_rows, 10)
+        # states with at least one active session are the interesting ones for expiry
+        tick_rows = rnd.sample([r_ for r_ in tick_rows if any(v["active"] for v in r_["from"].values())], 26)
     TIMEOUT, TICK = 1500, 1800
     peers = {"signer-1", "signer-2", "signer-3"}
     nonpeers = ["c1", "", "unknown", "signer-9", "Signer-1", "signer-1 "]
@@ -346,6 +347,11 @@ def run_c17(tier, seed, wd, info, verdict, with_nonpeers=False):
         calls.append(call_of(row["msg"], TICK))
         # after the transition, observe the resulting state through one more round of messages
         follow = []
+        if row["msg"]["m"] == "tick":
+            # directly after the timeout, with no other message in between, every kind of message must see the session gone
+            kinds = [dict(m=m_, a=a_, **{"from": 0}) for a_ in ("DW/s1", "DW/s2") for m_ in ("prepare", "execute", "commit", "abort")] + \
+                    [dict(m="contribute", a=a_, **{"from": j_}) for a_ in ("DW/s1", "DW/s2") for j_ in (1, 2)] + [dict(m="tick", a="", **{"from": 0})]
+            follow.append(kinds[k % len(kinds)])
         for a in ("DW/s1", "DW/s2"):
             follow.append(dict(m="execute", a=a, **{"from": 0}))
         calls += [call_of(m, TICK) for m in follow]
